@@ -9,7 +9,9 @@ the caller keeps its finished call future. The key of the keyed layers (coalesce
 `cf<j>=<knob>:<value>/…` configures layer j (knobs: see harness/src/mw_stack.rs and `lcfg_of` below); without it a layer has the
 configuration its name stands for.
 """
+import random
 import re
+import zlib
 from gen.util import kvs, tparse
 
 THIRTEEN = ["bulkhead", "ratelimiter", "circuit", "retry", "timelimiter", "cache", "fallback", "hedge", "reconnect",
@@ -576,7 +578,60 @@ def gen_foreign_thread(rng):
     return {"header": header, "ops": _off_runtime(rng, header, layers, ops, p=1.0)}
 
 
+def gen_clone_panic(rng):
+    """`Clone` of the wrapped service's error type is the wrapped service's code: it may unwind. A layer that copies results
+    (coalesce, innermost here: its copy for the waiters is the first clone of the error) must still be out of the way of every
+    LATER request — a request with the same key that arrives when nothing is in flight is forwarded as a call of its own and
+    answered. Request 1 fails with an error whose first clone panics (`clonepanic=1`; its own answer is not predicted), then
+    same-key and other requests follow, each after the previous one is over; every timer may expire at the end."""
+    above = [rng.choice(["timelimiter", "bulkhead", "circuit", "fallback", "retry", "ratelimiter", "adaptive", "chaos", "cache", "executor"])
+             for _ in range(rng.choice([0, 0, 1, 1, 2]))]
+    layers = above + ["coalesce"]
+    inner = rng.choice(["strict", "strict", "climit"])
+    header = "stack layers=%s inner=%s" % (",".join(layers), inner)
+    if inner == "climit":
+        header += " cl=%d" % rng.choice([1, 2, 16])
+    header += " lp=0"
+    t = rng.randint(1, 99)
+    ops = ["arrive 1 tag=%d inner=%d:%s clonepanic=1" % (t, rng.choice([0, 0, 3]), rng.choice(["err1", "err2", "err2"])),
+           "settle", "adv 5", "settle"]
+    if rng.random() < 0.5:
+        ops += ["adv 25", "settle"]
+    for c in range(2, rng.choice([3, 3, 4]) + 1):
+        same = c == 2 or rng.random() < 0.5
+        ops.append("arrive %d tag=%d inner=%d:%s%s" % (c, t + 1000 * (c - 1) if same else (t % 99) + c, rng.choice([0, 0, 3]),
+                                                        rng.choice(["ok", "ok", "err2"]), rng.choice(["", "", " how=held", " polls=2"])))
+        ops += ["settle", "adv 5", "settle"]
+    for _ in range(3):
+        ops += ["adv 25", "settle"]
+    return {"header": header, "ops": ops}
+
+
+def _fire_and_forget(rng, layers, ops):
+    """Whether anybody waits for the answer is not a configuration either: a caller may drop the call future right after
+    `call()` — never polled, before the runtime had a turn (`let _ = svc.call(req);`, an outer `select!` / timeout that has
+    lost interest already): `arrive … gone=1`. A layer that moves the call into a task of its own (executor: "the spawned
+    task continues to run to completion") must still forward the request exactly once; every other layer may do what it
+    does when a caller is dropped. Mostly for stacks with such a layer, now and then for any stack."""
+    if rng.random() >= (0.4 if "executor" in layers else 0.06):
+        return ops
+    return [o + " gone=1" if o.startswith("arrive") and " keep=1" not in o and rng.random() < 0.45 else o for o in ops]
+
+
 def gen(rng, tier):
+    case = _gen(rng, tier)
+    if case["header"].startswith("stack "):
+        own0 = random.Random(zlib.crc32(("\n".join(["cp", case["header"]] + case["ops"])).encode()))
+        if own0.random() < 0.02:
+            return gen_clone_panic(own0)
+        # (a random stream of its own, derived from the case: the cases themselves stay what they were)
+        own = random.Random(zlib.crc32(("\n".join([case["header"]] + case["ops"])).encode()))
+        layers = [l for l in kvs(case["header"]).get("layers", "").split(",") if l]
+        case["ops"] = _fire_and_forget(own, layers, case["ops"])
+    return case
+
+
+def _gen(rng, tier):
     r0 = rng.random()
     if 0.44 <= r0 < 0.56:
         return gen_configured(rng)
@@ -909,8 +964,8 @@ def _requests(case):
                 lat, _, out = part.partition(":")
                 steps.append((int(lat or 0), out))
             reqs[w[1]] = {"tag": k.get("tag", w[1]), "steps": steps, "how": k.get("how", "clone"),
-                          "polls": int(k.get("polls", "1")), "dropped": False, "keep": k.get("keep") == "1",
-                          "off": k.get("off") == "1"}
+                          "polls": int(k.get("polls", "1")), "dropped": k.get("gone") == "1", "keep": k.get("keep") == "1",
+                          "off": k.get("off") == "1", "gone": k.get("gone") == "1", "clonepanic": k.get("clonepanic") == "1"}
         elif w[0] in ("drop",) and len(w) > 1 and w[1] in reqs:
             reqs[w[1]]["dropped"] = True
         elif w[0] == "dropall":
@@ -1146,7 +1201,7 @@ def predictions(case, lines, meta):
         return {}
     if cfg.get("inner", "strict") == "buffer" and racing:
         return {}
-    if any(o.split()[:1] in (["drop"], ["dropall"]) for o in case["ops"]):
+    if any(o.split()[:1] in (["drop"], ["dropall"]) or (o.startswith("arrive") and (" gone=1" in o or " clonepanic=1" in o)) for o in case["ops"]):
         return {}
     tags = [rq["tag"] for rq in reqs.values()]
     if len(set(tags)) != len(tags):
@@ -1204,6 +1259,8 @@ def mon_readiness_contract(case, lines, meta):
             if k.get("ready") != "1":
                 return "line %d: the inner service was called on an instance that had not observed readiness since its last call: %s" % (i, l)
         elif w[0] == "result" and len(w) >= 3 and w[2] == "panic":
+            if reqs.get(w[1], {}).get("clonepanic") and any(out.startswith("err") for _, out in reqs[w[1]]["steps"]):
+                continue        # `Clone` of the error of this request's inner call is scripted to unwind: the wrapped service's code
             cfg0, layers0 = _cfg(case)
             return ("line %d: request %s, sent through %s, panicked — no inner call is scripted to panic: the stack itself did (a call of a "
                     "Buffer / ConcurrencyLimit instance that had not reserved capacity — `poll_ready must be called first` —, or a layer that "
@@ -1309,6 +1366,34 @@ def mon_boundary_contract(case, lines, meta):
     return bad
 
 
+def detached_call_not_forwarded(case, lines):
+    """The executor has no protective condition and runs the wrapped call in a task of its own, which "continues to run to
+    completion when the response future is dropped": every call it receives (`b<j> call … <tag>`) is forwarded to its inner
+    service exactly once (`b<j+1> call … <tag>`) by the end of the case (the runtime has a turn after every operation) —
+    whether the caller polls the call future, drops it later (`drop`) or at once (`arrive … gone=1`)."""
+    cfg, layers = _cfg(case)
+    reqs = _requests(case)
+    by_tag = {rq["tag"]: (c, rq) for c, rq in reqs.items()}
+    for j, l in enumerate(layers):
+        if BASE.get(l) != "executor":
+            continue
+        got, sent = {}, {}
+        for i, b, w in _bevents(lines):
+            if w[0] == "call" and len(w) >= 3 and b in (j, j + 1):
+                d = got if b == j else sent
+                d[w[2]] = d.get(w[2], 0) + 1
+        for tag, n in got.items():
+            if sent.get(tag, 0) != n and tag in by_tag:
+                c, rq = by_tag[tag]
+                how = ("its caller dropped the call future right after call(), before the first poll (gone=1)" if rq.get("gone")
+                       else "its caller was dropped" if rq["dropped"] else "its caller kept polling")
+                return ("request %s (tag %s) through %s: layer %d (executor) was called with it %d time(s) and forwarded it %d time(s) to its "
+                        "inner service — the executor has no protective condition and its spawned task runs to completion whether or not "
+                        "anybody waits for the answer (%s): exactly once per call" % (
+                            c, tag, describe_cfg(layers, cfg), j, n, sent.get(tag, 0), how))
+    return None
+
+
 def mon_transparent(case, lines, meta):
     """untriggered: exactly one inner call, request unchanged, that call's outcome under the pass-through wrappers"""
     _, layers = _cfg(case)
@@ -1339,6 +1424,9 @@ def mon_transparent(case, lines, meta):
     bad = unjustified_rejection(kvs(case["header"]), lines)
     if bad:
         return bad
+    bad = detached_call_not_forwarded(case, lines)
+    if bad:
+        return bad
     rl_small = _rl_cfg(kvs(case["header"])) is not None and "ratelimiter" in layers
     keyed = keyed_interference(layers, reqs, lines, meta)
     cfg = kvs(case["header"])
@@ -1347,7 +1435,7 @@ def mon_transparent(case, lines, meta):
     for c, rq in reqs.items():
         r = res.get(c)
         mine = calls.get(rq["tag"], [])
-        if r is None or rq["dropped"]:
+        if r is None or rq["dropped"] or rq.get("clonepanic"):
             continue
         if c in predicted:
             # the layers' configurations and the request's own outcomes determine the answer: forwarded exactly as often as
@@ -1695,6 +1783,14 @@ def config_tags(case, lines, meta, cfg, layers, reqs, res, ncalls):
     tags = []
     pred = predictions(case, lines, meta)
     for c, rq in reqs.items():
+        if rq.get("gone"):
+            tags.append("caller-gone-before-first-poll")
+            if any(BASE.get(l) == "executor" for l in layers) and ncalls.get(c, 0) >= 1:
+                tags.append("caller-gone-executor-still-forwards")
+        if rq.get("clonepanic") and res.get(c) == "panic":
+            tags.append("error-clone-panics")
+            if any(q != c and _key(o["tag"]) == _key(rq["tag"]) and res.get(q, "").startswith(("ok:", "err:")) for q, o in reqs.items()):
+                tags.append("error-clone-panics-later-same-key-request-answered")
         if rq.get("off"):
             tags.append("caller-outside-runtime")
             if c in pred and c in res:
@@ -1821,7 +1917,9 @@ ALL_TR = (["layer-" + l for l in VARIANTS] + ["mw-" + l for l in THIRTEEN] +
            "cfg-chaos-error-fn-first", "cfg-chaos-latency-bounds", "cfg-reconnect-no-policy", "cfg-reconnect-max-attempts-0",
            "cfg-reconnect-no-retry", "cfg-reconnect-connection-failure-predicted", "cfg-executor-handle", "cfg-executor-new",
            "cfg-executor-cur", "cfg-retry-backoff-setter-fn", "cfg-retry-backoff-setter-exp", "cfg-retry-predicate-first",
-           "cfg-retry-predicate-first-rejected-error", "caller-outside-runtime", "caller-outside-runtime-answer-predicted"])
+           "cfg-retry-predicate-first-rejected-error", "caller-outside-runtime", "caller-outside-runtime-answer-predicted",
+           "caller-gone-before-first-poll", "caller-gone-executor-still-forwards", "error-clone-panics",
+           "error-clone-panics-later-same-key-request-answered"])
 
 LEVEL_NOTE = ("Trusted: Lean kernel; the transcription of each layer's call path as a transducer between boundary event streams in "
               "TR.Model.Stack (validated only by the sampled correspondence check); tower's BoxCloneService / MapErr adapters and the Tap "
